@@ -869,6 +869,9 @@ class Ev:
             r = self.cx.idx.resolve(self.mod, e.id)
             if r and r[0] == 'class':
                 return r[1]
+            if r and r[0] == 'const' and self.depth < 8:
+                # module-level constant (possibly imported): evaluate its defining expression in its own module
+                return Ev(self.cx, r[1], self.wd0, self.depth + 1).ev(r[2], {})
             raise EvalError('name %s' % e.id)
         if isinstance(e, ast.Tuple):
             return tuple(self.ev(x, env) for x in e.elts)
@@ -923,7 +926,9 @@ class Ev:
                 if e.attr in b.attrs:
                     try:
                         return ast.literal_eval(b.attrs[e.attr])
-                    except ValueError:
+                    except (ValueError, SyntaxError):
+                        if self.depth < 8:
+                            return Ev(self.cx, b.mod, self.wd0, self.depth + 1).ev(b.attrs[e.attr], {})
                         raise EvalError('class attribute %s' % e.attr)
                 if e.attr in b.methods:
                     return ('meth', b, b.methods[e.attr])
